@@ -152,6 +152,7 @@ def _class_contract(cls):
         args = shapes
         state = {HBH: T.BytesList(), E2E: T.BytesList()}
         max_paths = 600
+        samples = 1
         kwargs_call = True
         # names are irrelevant here: use the list/length summary of append, not its body
         force_contracts = ("bromelia.base.DiameterMessage.append",)
@@ -196,6 +197,7 @@ def _class_contract(cls):
             args = shapes2
             state = {HBH: T.BytesList(), E2E: T.BytesList()}
             kwargs_call = True
+            samples = 1
             force_contracts = ("bromelia.base.DiameterMessage.append",)
 
             def ensures_rejected(result):
